@@ -1,14 +1,22 @@
-"""(the as_* accessors mention `&str` consts Verus cannot ingest: their contracts are assumed here and discharged by the
-Kani harness vcell_accessors)
+"""(the as_* accessors mention `&str` consts Verus cannot ingest: pre-rewrite str_consts routes each mention through an
+external_body function returning that very const, so as_ptr / as_argc / as_car / as_cdr are VERIFIED here; the Kani harness
+vcell_accessors checks them a second time on the untouched text.  is_nil compares with the derived `==` and stays assumed + Kani-checked)
 Unit `vcell`: marwood/src/vm/vcell.rs — the trivial constructors / accessors other units call (verified, not assumed)."""
 
 T = ['C14', 'C06']
+F = ['C04', 'C05', 'C06']
 UNITS = [{
     'name': 'vcell',
     'file': 'src/vm/vcell.rs',
     'uses_types': ['VCell', 'Error'],
     'prelude': """
 pub assume_specification [VCell::type_text] (v: &VCell) -> (r: &'static str);
+#[verifier::external_body] pub fn verif_const_PTR_TYPE_TEXT() -> (r: &'static str) { PTR_TYPE_TEXT }
+#[verifier::external_body] pub fn verif_const_ARGUMENT_COUNT_TYPE_TEXT() -> (r: &'static str) { ARGUMENT_COUNT_TYPE_TEXT }
+#[verifier::external_body] pub fn verif_const_PAIR_TYPE_TEXT() -> (r: &'static str) { PAIR_TYPE_TEXT }
+#[verifier::external_body] pub fn verif_const_INSTRUCTION_POINTER_TYPE_TEXT() -> (r: &'static str) { INSTRUCTION_POINTER_TYPE_TEXT }
+#[verifier::external_body] pub fn verif_const_BASE_POINTER_TYPE_TEXT() -> (r: &'static str) { BASE_POINTER_TYPE_TEXT }
+#[verifier::external_body] pub fn verif_const_ENVIRONMENT_POINTER_TYPE_TEXT() -> (r: &'static str) { ENVIRONMENT_POINTER_TYPE_TEXT }
 """,
     'fns': {
         'impl VCell::undefined': {'props': [], 'ensures': ['r == VCell::Undefined']},
@@ -32,9 +40,13 @@ pub assume_specification [VCell::type_text] (v: &VCell) -> (r: &'static str);
         'impl VCell::is_builtin_proc': {'props': [], 'ensures': ['r == (*self is BuiltInProc)']},
         'impl VCell::is_procedure': {'props': [], 'ensures': ['r == (*self is Lambda || *self is Closure || *self is BuiltInProc || *self is Continuation)']},
         'impl VCell::is_nil': {'props': T, 'trusted': True, 'ensures': ['r == (*self is Nil)']},
-        'impl VCell::as_ptr': {'props': T, 'trusted': True, 'ensures': ['*self matches VCell::Ptr(p) ==> r == Ok::<usize, Error>(p)', '!(*self is Ptr) ==> r is Err']},
-        'impl VCell::as_argc': {'props': T, 'trusted': True, 'ensures': ['*self matches VCell::ArgumentCount(n) ==> r == Ok::<usize, Error>(n)', '!(*self is ArgumentCount) ==> r is Err']},
-        'impl VCell::as_car': {'props': T, 'trusted': True, 'ensures': ['*self matches VCell::Pair(a, d) ==> r == Ok::<VCell, Error>(VCell::Ptr(a))', '!(*self is Pair) ==> r is Err']},
-        'impl VCell::as_cdr': {'props': T, 'trusted': True, 'ensures': ['*self matches VCell::Pair(a, d) ==> r == Ok::<VCell, Error>(VCell::Ptr(d))', '!(*self is Pair) ==> r is Err']},
+        'impl VCell::as_ptr': {'props': T, 'pre_rewrites': ['str_consts'], 'ensures': ['*self matches VCell::Ptr(p) ==> r == Ok::<usize, Error>(p)', '!(*self is Ptr) ==> r is Err']},
+        'impl VCell::as_argc': {'props': T, 'pre_rewrites': ['str_consts'], 'ensures': ['*self matches VCell::ArgumentCount(n) ==> r == Ok::<usize, Error>(n)', '!(*self is ArgumentCount) ==> r is Err']},
+        # the frame words RET / restore paths read back (run_one, group runone)
+        'impl VCell::as_ip': {'props': F, 'pre_rewrites': ['str_consts'], 'ensures': ['*self matches VCell::InstructionPointer(a, b) ==> r == Ok::<(usize, usize), Error>((a, b))', '!(*self is InstructionPointer) ==> r is Err']},
+        'impl VCell::as_ep': {'props': F, 'pre_rewrites': ['str_consts'], 'ensures': ['*self matches VCell::EnvironmentPointer(p) ==> r == Ok::<usize, Error>(p)', '!(*self is EnvironmentPointer) ==> r is Err']},
+        'impl VCell::as_bp': {'props': F, 'pre_rewrites': ['str_consts'], 'ensures': ['*self matches VCell::BasePointer(p) ==> r == Ok::<usize, Error>(p)', '!(*self is BasePointer) ==> r is Err']},
+        'impl VCell::as_car': {'props': T, 'pre_rewrites': ['str_consts'], 'ensures': ['*self matches VCell::Pair(a, d) ==> r == Ok::<VCell, Error>(VCell::Ptr(a))', '!(*self is Pair) ==> r is Err']},
+        'impl VCell::as_cdr': {'props': T, 'pre_rewrites': ['str_consts'], 'ensures': ['*self matches VCell::Pair(a, d) ==> r == Ok::<VCell, Error>(VCell::Ptr(d))', '!(*self is Pair) ==> r is Err']},
     },
 }]
